@@ -7,7 +7,12 @@
    state after ANY list [ls] of steps (any interleaving of any number [n] of producers
    with the evaluation thread, starts, stops, stop requests, spurious wake-ups), policy
    [pl] (Queue, Burst, Confl), capacity [c] (0 = unbounded).
-   Level: PARTIAL — atomicity of each critical section and the memory model are assumed. *)
+   Level: PARTIAL — atomicity of each critical section and the memory model are assumed.
+   ONE push source: the LTS has a single queue and the engine-wide flag push_update_pending.  A root graph with
+   several push sources shares that one flag among them (evaluate_impl resets it once per cycle and evaluates
+   every push node of the prefix); that case is NOT covered by these theorems.  It rests on the correspondence
+   check: the harness adds idle push sources to the observed one (sequential differential: the flag after each
+   cycle; free running: the acceptor per source plus the oracle kinds stall / undelivered / lost_wakeup). *)
 Require Import Base PushQ PushQInv PushQInv2 PushQFacts PushQBridge.
 From Coq Require Import ZifyBool.
 
